@@ -131,6 +131,7 @@ def monitor(contract, ncases, rng, on_case=None):
         for nm, a in zip(names, args):
             bindings[nm] = a
         bindings.update(kwargs)
+        rtc.bind_varkw(contract, fn, bindings, kwargs)
         if self_obj is not None:
             bindings["self"] = self_obj
         for nm, d in contract.defaults.items():
